@@ -27,6 +27,8 @@ type NodeOpts struct {
 	ChainID    uint64
 	// WrapState, if set, wraps the state store handed to the ledger (fault injection); dumps still read the raw store
 	WrapState func(storage.Storage) storage.Storage
+	// WrapChain does the same for the chain index store
+	WrapChain func(storage.Storage) storage.Storage
 }
 
 func (o NodeOpts) withDefaults() NodeOpts {
@@ -225,7 +227,11 @@ func (n *Node) open() {
 	if n.Opts.WrapState != nil {
 		stateForLedger = n.Opts.WrapState(n.StateDB)
 	}
-	n.Ledger, err = verifhook.NewLedger(n.Repo, n.ChainDB, stateForLedger, n.BF, cache, Logger)
+	var chainForLedger storage.Storage = n.ChainDB
+	if n.Opts.WrapChain != nil {
+		chainForLedger = n.Opts.WrapChain(n.ChainDB)
+	}
+	n.Ledger, err = verifhook.NewLedger(n.Repo, chainForLedger, stateForLedger, n.BF, cache, Logger)
 	if err != nil {
 		panic(fmt.Sprintf("verif: ledger.New: %v", err))
 	}
